@@ -86,6 +86,14 @@ func hqSpecOf(in string) (string, bool) {
 		AddF: h.kv["addf"], DelF: h.kv["delf"], GetF: h.kv["getf"], Consume: h.kv["c"] == "1", Fin: h.kv["fin"],
 		Dir: "@DIR@", WaitMs: atoiDef(h.kv["wait"], 60000),
 	}
+	if h.kv["wait"] == "" {
+		// every failed request costs its retry sleep (<= 5 s), a stall the client's 5 s timeout as well
+		for _, f := range spec.AddF + spec.DelF + spec.GetF {
+			if f != 'O' {
+				spec.WaitMs += 11000
+			}
+		}
+	}
 	b, _ := json.Marshal(spec)
 	return string(b), true
 }
@@ -118,13 +126,13 @@ func genFaults(r *Rng, n int, tier string, stallBudget *int) string {
 	return b.String()
 }
 
-func pickText(r *Rng, allowBad bool) string {
+func pickText(r *Rng, allowBad, raw bool) string {
 	switch k := r.Intn(20); {
 	case k < 14:
 		return goodTexts[r.Intn(len(goodTexts))]
 	case k < 16 && allowBad:
 		return badTexts[r.Intn(len(badTexts))]
-	case k < 17:
+	case k < 18 && raw:
 		return rawTexts[r.Intn(len(rawTexts))]
 	default:
 		return fmt.Sprintf("http://gen.test/%d", r.Intn(1000))
@@ -153,6 +161,7 @@ func genHQFlow(r *Rng, i int, tier string) string {
 	workers := []int{1, 2, 3, 3, 10, 20, 25}[r.Intn(7)]
 	consume := r.Chance(70)
 	allowBad := r.Chance(25)
+	raw := r.Chance(12) // edge stream: texts / parents that are not well-formed UTF-8
 	// number of outlinks: mostly a multiple of the batch size (size-triggered flushes only)
 	nb := 1 + r.Intn(4)
 	n := nb * bsize
@@ -169,14 +178,14 @@ func genHQFlow(r *Rng, i int, tier string) string {
 	var items []string
 	anyBad := false
 	for j := 0; j < n; j++ {
-		t := pickText(r, allowBad)
+		t := pickText(r, allowBad, raw)
 		if j > 0 && r.Chance(10) {
 			t = unhex(strings.Split(items[r.Intn(len(items))], ",")[0]) // duplicate text
 		}
 		if _, err := url.ParseRequestURI(t); err != nil {
 			anyBad = true
 		}
-		items = append(items, fmt.Sprintf("%x,%x,%d", t, viaTexts[r.Intn(len(viaTexts))], pickHops(r)))
+		items = append(items, fmt.Sprintf("%x,%x,%d", t, pickVia(r, raw), pickHops(r)))
 	}
 	var steps []string
 	midWait := timerFlush && r.Chance(30) && n > 2
@@ -299,7 +308,7 @@ func execHQFlow(in string) Result {
 			q := h.items[e.I]
 			pev = append(pev, "PR ("+coqOutlink(q)+")")
 			t := unhex(q.V)
-			if !utf8.ValidString(t) {
+			if !utf8.ValidString(t) || !utf8.ValidString(unhex(q.Via)) {
 				tags["text:invalid-utf8"] = true
 			}
 			if _, err := url.ParseRequestURI(t); err != nil {
